@@ -393,6 +393,27 @@ func runEffect(c *core.Ctx) {
 			}
 		})
 	}
+	for _, fn := range fns {
+		if p.Generated(fn) {
+			continue
+		}
+		n := 0
+		sx.EachInstr(fn, func(in ssa.Instruction) {
+			switch in.(type) {
+			case *ssa.Store, *ssa.MapUpdate:
+				n++
+			}
+		})
+		bad := false
+		for _, f := range c.Findings {
+			if f.Rule == c.Rule && strings.HasPrefix(f.Construct, load.FnName(fn)+":") {
+				bad = true
+			}
+		}
+		if n > 0 && !bad {
+			c.Ob(load.FnName(fn), fn.Pos(), true, fmt.Sprintf("%d store/map-update instruction(s): all into fresh allocations or scratch types; reachable from %s", n, load.FnName(reach[fn])))
+		}
+	}
 	for k := range effectTabled {
 		if !seenTab[k] {
 			c.Note("tabled R-EFFECT exception %q matches no construct any more (harmless; table can be pruned)", k)
